@@ -138,6 +138,16 @@ def shift_defined(op, ta, b, tb):
     return z3.ULT(bb, wv)
 
 
+def div_defined(op, a, ta, b, tb):
+    """6.5.5p5/p6: UB if the divisor is zero or the quotient is not representable (INT_MIN / -1)."""
+    rt = binop_type(op, ta, tb)
+    x, y = conv(a, ta, rt[1]), conv(b, tb, rt[1])
+    pre = y != 0
+    if rt[0]:
+        pre = z3.And(pre, z3.Not(z3.And(x == z3.BitVecVal(1 << (rt[1] - 1), rt[1]), y == z3.BitVecVal(-1, rt[1]))))
+    return pre
+
+
 def binop_value(op, a, ta, b, tb):
     """Value (bit-vector of the result type's width) of `a op b` for operands of C types ta, tb.
     For shifts the caller must assume shift_defined()."""
